@@ -30,6 +30,10 @@ type Mutant struct {
 	Old    string   `json:"old"`
 	New    string   `json:"new"`
 	Expect []string `json:"expect"`
+	Edits  []struct {
+		Old string `json:"old"`
+		New string `json:"new"`
+	} `json:"edits"`
 	Benign bool     `json:"benign"`
 	Note   string   `json:"note"`
 }
@@ -49,6 +53,21 @@ func applyMutant(repo, path string) (*Mutant, error) {
 	src, err := os.ReadFile(f)
 	if err != nil {
 		return nil, err
+	}
+	if m.Old == "" && m.New == "" && len(m.Edits) > 0 {
+		// several replacements in one file
+		text := string(src)
+		for _, e := range m.Edits {
+			if strings.Count(text, e.Old) != 1 {
+				return nil, fmt.Errorf("mutant %s: pattern occurs %d times in %s", path, strings.Count(text, e.Old), m.File)
+			}
+			text = strings.Replace(text, e.Old, e.New, 1)
+		}
+		if overlay == nil {
+			overlay = map[string][]byte{}
+		}
+		overlay[f] = []byte(text)
+		return &m, nil
 	}
 	if strings.Count(string(src), m.Old) != 1 {
 		return nil, fmt.Errorf("mutant %s: pattern occurs %d times in %s", path, strings.Count(string(src), m.Old), m.File)
@@ -389,6 +408,11 @@ func cmdCheck(args []string) int {
 		}
 		sort.Strings(trig)
 		w.lemmaAx = append(w.lemmaAx, smtAxiom{name: "lemma:" + lm.Name, syms: trig, text: "(assert " + cv.T.S + ")"})
+	}
+
+	// lock-order discipline over everything executed in this run
+	if lob := w.lockOrder.obligation(*prop); lob != nil && *only == "" {
+		obs = append(obs, lob)
 	}
 
 	// consistency canary: the axioms in scope must not be refutable
